@@ -5,11 +5,10 @@
     - [run_result]: how Run maps the results of its goroutines (errgroup: the first non-nil error
       in order of return) to its own result, including the rule
       `strings.Contains(err.Error(), "closed")  ->  nil`  (run.go:93).
-    Error texts are Coq [string]s (lists of [ascii]); [None] is Go's nil error. *)
+    Error texts are [list ascii] (one [ascii] per byte); [None] is Go's nil error. *)
 From Coq Require Import Arith Bool List String Ascii.
 From CanVerif Require Import Runner.Lts.
 Import ListNotations.
-Open Scope string_scope.
 
 (* ---------------------------------------------------------------- receive path *)
 
@@ -46,23 +45,34 @@ Fixpoint rx_trace (t : tid) (fs : list rframe) (end_ok : bool) : list event :=
 
 (* ---------------------------------------------------------------- result of Run *)
 
-Fixpoint prefixb (p s : string) : bool :=
+(** error texts: lists of [ascii] characters ([txt "..."] turns a literal into one; the constants
+    below are evaluated so that extraction does not need Coq's [string] type) *)
+Definition text := list ascii.
+Definition txt (s : string) : text := list_ascii_of_string s.
+
+Definition closed_text : text := Eval compute in txt "closed".
+Definition receiver_prefix : text := Eval compute in txt "receiver: ".
+Definition transmitter_infix : text := Eval compute in txt " transmitter: ".
+Definition run_prefix : text := Eval compute in txt "run ".
+Definition node_infix : text := Eval compute in txt " node: ".
+
+Fixpoint prefixb (p s : text) : bool :=
   match p, s with
-  | EmptyString, _ => true
-  | String a p', String b s' => Ascii.eqb a b && prefixb p' s'
-  | String _ _, EmptyString => false
+  | [], _ => true
+  | a :: p', b :: s' => Ascii.eqb a b && prefixb p' s'
+  | _ :: _, [] => false
   end.
 
 (** strings.Contains *)
-Fixpoint contains (needle hay : string) : bool :=
+Fixpoint contains (needle hay : text) : bool :=
   prefixb needle hay ||
   match hay with
-  | EmptyString => false
-  | String _ tl => contains needle tl
+  | [] => false
+  | _ :: tl => contains needle tl
   end.
 
 (** errgroup.Wait: the first non-nil result, goroutine results listed in order of return *)
-Fixpoint first_error (results : list (option string)) : option string :=
+Fixpoint first_error (results : list (option text)) : option text :=
   match results with
   | [] => None
   | Some e :: _ => Some e
@@ -70,20 +80,20 @@ Fixpoint first_error (results : list (option string)) : option string :=
   end.
 
 (** fmt.Errorf wrappers of run.go *)
-Definition wrap_receiver (e : string) : string := "receiver: " ++ e.
-Definition wrap_transmitter (msg e : string) : string := msg ++ " transmitter: " ++ e.
-Definition wrap_run (node e : string) : string := "run " ++ node ++ " node: " ++ e.
+Definition wrap_receiver (e : text) : text := (receiver_prefix ++ e)%list.
+Definition wrap_transmitter (msg e : text) : text := (msg ++ transmitter_infix ++ e)%list.
+Definition wrap_run (node e : text) : text := (run_prefix ++ node ++ node_infix ++ e)%list.
 
 (** Run (run.go:92-98) *)
-Definition run_result (node : string) (results : list (option string)) : option string :=
+Definition run_result (node : text) (results : list (option text)) : option text :=
   match first_error results with
   | None => None
-  | Some e => if contains "closed" e then None else Some (wrap_run node e)
+  | Some e => if contains closed_text e then None else Some (wrap_run node e)
   end.
 
 (** what the property demands: a goroutine failing with [e] (hook, unmarshal or transmit error)
     makes Run return an error wrapping [e]; no failure (only cancellation) makes it return nil *)
-Definition run_spec (node : string) (failure : option string) : option string :=
+Definition run_spec (node : text) (failure : option text) : option text :=
   match failure with
   | None => None
   | Some e => Some (wrap_run node e)
